@@ -5,7 +5,7 @@
     (`vm_compute`), which re-establishes every theorem below for what the code says now. *)
 From Coq Require Import ZArith List Bool Lia.
 Import ListNotations.
-From CV Require Import Model.M_flow Model.M_pipeline Model.M_aflow Proof.P_aflow Proof.P_cnt Proof.P_endreq Proof.P_flow_thm.
+From CV Require Import Model.M_flow Model.M_pipeline Model.M_aflow Proof.P_aflow Proof.P_cnt Proof.P_endreq Proof.P_endreq2 Proof.P_flow_thm.
 Open Scope Z_scope.
 
 Definition all_fnames : list fname :=
@@ -84,7 +84,9 @@ Section Gen.
     && tables_eqb (g_hook_table F_request_run) table_run
     && tables_eqb (g_hook_table F_respond) table_respond
     && forallb (fun g => safe (prog g) && safe (pparam g)) all_fnames
-    && safe server_session.
+    && safe server_session
+    && forallb (fun g => safe2 (prog g) && safe2 (pparam g)) all_fnames
+    && safe2 server_session.
 
   Hypothesis checks : flow_checks = true.
 
@@ -215,7 +217,8 @@ Section Gen.
     (countr r (journal st') <= 1)%nat.
   Proof.
     intros H. split_checks.
-    match goal with X : forallb _ all_fnames = true |- _ => rewrite forallb_forall in X; rename X into Hall end.
+    match goal with X : forallb (fun g => safe (prog g) && safe (pparam g)) all_fnames = true |- _ =>
+      rewrite forallb_forall in X; rename X into Hall end.
     assert (Hp : forall g, safe (prog g) = true).
     { intros g. specialize (Hall g (all_fnames_complete g)). apply andb_prop in Hall. destruct Hall as [A _]. exact A. }
     assert (Hq : forall g, safe (pparam g) = true).
@@ -224,6 +227,35 @@ Section Gen.
     match goal with X : safe server_session = true |- _ =>
       pose proof (J_preserved prog pparam E Hp Hq fuel Skip server_session init_state o st' eq_refl X HJ0 H r) as HJ end.
     destruct (memZ r (closed (sid st'))); lia.
+  Qed.
+  (** ... and exactly once for every request whose close() got past its guard, never for another one *)
+  Theorem gthm_end_request_exactly_once_if_closed E fuel o st' r :
+    exec prog pparam E fuel Skip server_session init_state = (o, st') -> o <> OutOfFuel -> r <> 0 ->
+    countr r (journal st') = if memZ r (closed (sid st')) then 1%nat else 0%nat.
+  Proof.
+    intros H Hne Hr. split_checks.
+    repeat match goal with X : forallb _ all_fnames = true |- _ => rewrite forallb_forall in X end.
+    match goal with
+    | X : forall x, In x all_fnames -> safe (prog x) && safe (pparam x) = true,
+      Y : forall x, In x all_fnames -> safe2 (prog x) && safe2 (pparam x) = true |- _ =>
+      rename X into Hall; rename Y into Hall2
+    end.
+    assert (Hp : forall g, safe (prog g) = true).
+    { intros g. specialize (Hall g (all_fnames_complete g)). apply andb_prop in Hall. destruct Hall as [A _]. exact A. }
+    assert (Hq : forall g, safe (pparam g) = true).
+    { intros g. specialize (Hall g (all_fnames_complete g)). apply andb_prop in Hall. destruct Hall as [_ B]. exact B. }
+    assert (Hp2 : forall g, safe2 (prog g) = true).
+    { intros g. specialize (Hall2 g (all_fnames_complete g)). apply andb_prop in Hall2. destruct Hall2 as [A _]. exact A. }
+    assert (Hq2 : forall g, safe2 (pparam g) = true).
+    { intros g. specialize (Hall2 g (all_fnames_complete g)). apply andb_prop in Hall2. destruct Hall2 as [_ B]. exact B. }
+    assert (HJ0 : J init_state) by (intros q; cbn; lia).
+    assert (HK0 : K init_state).
+    { intros q Hq0 Hm. exfalso. unfold memZ in Hm. cbn in Hm. rewrite orb_false_r in Hm. apply Z.eqb_eq in Hm. congruence. }
+    match goal with X : safe server_session = true, Y : safe2 server_session = true |- _ =>
+      pose proof (J_preserved prog pparam E Hp Hq fuel Skip server_session init_state o st' eq_refl X HJ0 H r) as HJ;
+      pose proof (K_preserved prog pparam E Hp2 Hq2 fuel Skip server_session init_state o st' eq_refl Y HK0 H Hne r Hr) as HK
+    end.
+    destruct (memZ r (closed (sid st'))); [specialize (HK eq_refl); lia | lia].
   Qed.
 End Gen.
 
